@@ -107,3 +107,73 @@ def OptionalInOrderFields : List (String × DInfo F) → Prop
 end
 
 end Frappy.DInfo
+
+/-! ## limits that are not grid aligned: what the round trip through the description does to them -/
+
+namespace Frappy.DInfo
+open FloatOps
+variable {F : Type} [FloatOps F]
+
+/-- Boolean test of `Aligned` (bit equality) — run by the monitors to see whether a tree is in the quantifier -/
+def alignedB (scale x : F) : Bool :=
+  match DType.snap scale x with
+  | some y => same y x
+  | none => false
+
+mutual
+def exportableB : DInfo F → Bool
+  | .scaled s mn mx _ _ _ _ => alignedB s mn && alignedB s mx
+  | .array e _ _ => exportableB e
+  | .tuple es => exportableListB es
+  | .struct ms _ _ => exportableFieldsB ms
+  | _ => true
+def exportableListB : List (DInfo F) → Bool
+  | [] => true
+  | t :: ts => exportableB t && exportableListB ts
+def exportableFieldsB : List (String × DInfo F) → Bool
+  | [] => true
+  | (_, t) :: ts => exportableB t && exportableFieldsB ts
+end
+
+mutual
+/-- the tree with every scaled limit moved to the grid value of its grid index
+(`int(round(limit / scale)) * scale`: what the description stands for); `none` where a grid index or a finite
+grid value does not exist (`export_datatype` raises `OverflowError` / the constructor refuses the limit) -/
+def snapLimits : DInfo F → Option (DInfo F)
+  | .scaled s mn mx ar rr u f =>
+    match DType.snap s mn, DType.snap s mx with
+    | some mn', some mx' => if isFinite mn' && isFinite mx' then some (.scaled s mn' mx' ar rr u f) else none
+    | _, _ => none
+  | .array e a b =>
+    match snapLimits e with
+    | some e' => some (.array e' a b)
+    | none => none
+  | .tuple es =>
+    match snapLimitsList es with
+    | some es' => some (.tuple es')
+    | none => none
+  | .struct ms opt c =>
+    match snapLimitsFields ms with
+    | some ms' => some (.struct ms' opt c)
+    | none => none
+  | .double mn mx ar rr u f => some (.double mn mx ar rr u f)
+  | .int mn mx => some (.int mn mx)
+  | .bool => some .bool
+  | .enum n ms => some (.enum n ms)
+  | .string a b u => some (.string a b u)
+  | .blob a b => some (.blob a b)
+def snapLimitsList : List (DInfo F) → Option (List (DInfo F))
+  | [] => some []
+  | t :: ts =>
+    match snapLimits t, snapLimitsList ts with
+    | some t', some ts' => some (t' :: ts')
+    | _, _ => none
+def snapLimitsFields : List (String × DInfo F) → Option (List (String × DInfo F))
+  | [] => some []
+  | (k, t) :: ts =>
+    match snapLimits t, snapLimitsFields ts with
+    | some t', some ts' => some ((k, t') :: ts')
+    | _, _ => none
+end
+
+end Frappy.DInfo
